@@ -94,6 +94,7 @@ type lockWait struct {
 }
 
 type lockAnalysis struct {
+	nbComm            map[token.Pos]bool // receive / send expressions that are cases of a select with a default clause
 	noEdges, noAccess bool // walking a deferred literal at its defer statement (accesses only) / at a return (edges only)
 	edges    []lockEdge
 	waits    []lockWait
@@ -376,7 +377,7 @@ func (w *walker) call(c *ast.CallExpr, st lockState, deferred bool) {
 
 // noteWait records a blocking wait reached while a tracked mutex may be held (may mode only).
 func (w *walker) noteWait(kind, what string, st lockState, pos token.Pos) {
-	if !(mayMode && w.la.record && !w.la.noEdges) {
+	if !(mayMode && w.la.record && !w.la.noEdges) || w.la.nbComm[pos] {
 		return
 	}
 	for _, t := range lockStructs {
@@ -568,6 +569,24 @@ func (w *walker) stmt(s ast.Stmt, st lockState) lockState {
 		}
 		if blocking {
 			w.noteWait("select", "", st, x.Pos())
+		} else {
+			// the receives (and sends) in the cases of a select with a default clause do not wait
+			if w.la.nbComm == nil {
+				w.la.nbComm = map[token.Pos]bool{}
+			}
+			for _, c := range x.Body.List {
+				if cc, ok := c.(*ast.CommClause); ok && cc.Comm != nil {
+					ast.Inspect(cc.Comm, func(n ast.Node) bool {
+						if u, ok := n.(*ast.UnaryExpr); ok && u.Op == token.ARROW {
+							w.la.nbComm[u.Pos()] = true
+						}
+						if sd, ok := n.(*ast.SendStmt); ok {
+							w.la.nbComm[sd.Pos()] = true
+						}
+						return true
+					})
+				}
+			}
 		}
 		st = w.clauses(x.Body.List, st)
 	case *ast.LabeledStmt:
